@@ -1,6 +1,7 @@
 package stdlib
 
 import (
+	"math"
 	. "rare/pkg/expressions" //lint:ignore ST1001 Legacy
 	"rare/pkg/slicepool"
 	"rare/pkg/stringSplitter"
@@ -278,6 +279,11 @@ func kfArrayRange(args []KeyBuilderStage) (KeyBuilderStage, error) {
 				sb.WriteRune(ArraySeparator)
 			}
 			sb.WriteString(strconv.Itoa(i))
+
+			// The next value would overflow int (and so is beyond stop as well)
+			if (incr > 0 && i > math.MaxInt-incr) || (incr < 0 && i < math.MinInt-incr) {
+				break
+			}
 		}
 
 		return sb.String()
